@@ -1,8 +1,8 @@
 (* Property C11 - a Sub view shows exactly its subtree and keeps its own user,
    umask and current directory.  Statements only (POSIX flavour); the proofs are in
-   Fs/SubIsolated.v, Fs/SubProofs.v, Fs/SubCalls.v, Fs/SubWorld.v, Fs/SubFrame.v. *)
+   Fs/SubIsolated.v, Fs/SubProofs.v, Fs/SubCalls.v, Fs/SubWorld.v, Fs/SubFrame.v, Fs/SubAny.v. *)
 From Avfs Require Import Base PathModel PathSpec PathCleanProofs PathIterProofs MemFS MemFile World
-  SubIsolated SubProofs SubCalls SubWorld SubFrame.
+  SubIsolated SubProofs SubCalls SubWorld SubFrame SubAny.
 
 (* ------------------------------------------------------------------------------------
    ISOLATION.  A world has any number of views (nested ones and views of "/" included:
@@ -149,6 +149,34 @@ Theorem C11_prefix_chdir : forall (w : world) (vi vj : nat) (vp vv : view) (ds :
                  /\ v_cwd v' = abs_path (ds ++ ps)).
 Proof. exact wstep_chdir_cwd. Qed.
 
+(* every path STRING at the level of the calls: a call through a view on a non-empty string p is the same
+   call on the clean absolute path Abs(cwd, p) = "/q1/.../qm" (to which C11_prefix applies) - the whole step for
+   the 17 one-path calls that read the string only through Abs; Stat / Lstat up to FileInfo.Name (the base
+   name of the string given); OpenFile up to the name the handle remembers.  [C11_confine_no_dotdot] gives
+   qs = view_comps cw p for an absolute p, and for a relative p once the view's cwd is "/cw1/.../cwk". *)
+Theorem C11_prefix_any_call : forall (w : world) (vj : nat) (vv : view) (p : str) (qs : list str),
+  nth_error (w_views w) vj = Some vv -> v_os vv = Linux -> p <> [] ->
+  abs Linux (v_cwd vv) p = abs_path qs -> Forall good_comp qs ->
+  forall k : pcall, by_abs k = true -> wstep w (mk1 k vj p) = wstep w (mk1 k vj (abs_path qs)).
+Proof. exact wstep_any_path. Qed.
+
+Theorem C11_prefix_any_stat : forall (w : world) (vj : nat) (vv : view) (p : str) (qs : list str),
+  nth_error (w_views w) vj = Some vv -> v_os vv = Linux ->
+  abs Linux (v_cwd vv) p = abs_path qs -> Forall good_comp qs ->
+  forall k : pcall, k = PStat \/ k = PLstat ->
+  fst (wstep w (mk1 k vj p)) = w /\ fst (wstep w (mk1 k vj (abs_path qs))) = w
+  /\ info_upto_name (base Linux p) (base Linux (abs_path qs))
+       (snd (wstep w (mk1 k vj p))) (snd (wstep w (mk1 k vj (abs_path qs)))).
+Proof. exact wstep_any_path_stat. Qed.
+
+Theorem C11_prefix_any_open : forall (w : world) (vj : nat) (vv : view) (p : str) (qs : list str),
+  nth_error (w_views w) vj = Some vv -> v_os vv = Linux -> p <> [] ->
+  abs Linux (v_cwd vv) p = abs_path qs -> Forall good_comp qs ->
+  forall flag perm : N,
+  w_fs (fst (wstep w (COpenFile vj p flag perm))) = w_fs (fst (wstep w (COpenFile vj (abs_path qs) flag perm)))
+  /\ snd (wstep w (COpenFile vj p flag perm)) = snd (wstep w (COpenFile vj (abs_path qs) flag perm)).
+Proof. exact wstep_any_path_open. Qed.
+
 (* ------------------------------------------------------------------------------------
    CONFINEMENT.  Whatever the path string (".." spellings, symbolic links with absolute
    or relative targets met on the way), the nodes searchNode hands to the calls are
@@ -234,6 +262,14 @@ Example C11_example_prefix :
   /\ (exists i, snd (wstep (fst b) (CStat 1 (abs_path [ex_x]))) = RInfo i /\ fi_name i = ex_x)
   /\ snd (wstep (fst b) (CStat 1 (abs_path [ex_a; ex_x]))) = RFail ENoSuchDir.
 Proof. vm_compute. repeat split; eexists; split; reflexivity. Qed.
+
+(* an unclean relative string through the view after Chdir through the view: "./../x/." with cwd "/x" is "/x" *)
+Example C11_example_relative :
+  let w3 := fst (wrun ex_w2 [CMkdir 1 (abs_path [ex_x]) 493; CChdir 1 (abs_path [ex_x])]) in
+  snd (wstep w3 (CWriteFile 1 [46;47;46;46;47;120;47;46;47;97]%N [104;105]%N 420)) = ROk
+  /\ w_fs (fst (wstep w3 (CWriteFile 1 [46;47;46;46;47;120;47;46;47;97]%N [104;105]%N 420)))
+     = w_fs (fst (wstep w3 (CWriteFile 0 (abs_path [ex_a; ex_x; ex_a]) [104;105]%N 420))).
+Proof. vm_compute. split; reflexivity. Qed.
 
 (* isolation, computed: SetUser / SetUMask / Chdir through the view leave the parent's record alone *)
 Example C11_example_isolated :
